@@ -33,6 +33,8 @@ POOL = [
     "{ if (PuV & 1) { RdV = RsV; } else { STORE_SLOT_CANCELLED(pkt, slot); } }",
     "{ EA = RxV; fcirc_add(bundle, RxV, siV, MuV, get_corresponding_CS(pkt, MuV)); RdV = (int32_t)mem_load_u8(EA); }",
     "{ set_usr_field(bundle, HEX_REG_FIELD_USR_OVF, 1); RdV = get_usr_field(bundle, HEX_REG_FIELD_USR_OVF); }",
+    "{ EA = RsV; RdV = EA++; }",                                              # value-producing operation ON a special identifier (EA, i)
+    "{ EA = RsV; i = 2; RxV = i-- + EA--; mem_store_u8(EA, RtV); }",
     # failing inputs
     "{ RdV = RsV +; }",                                  # parse error
     "{ while (RsV) { RdV = 1; } }",                      # unsupported construct
@@ -188,7 +190,8 @@ REG_BAD = [("int32_t", ["int32_t a"], "{ return a +; }"), ("int64_t", ["int8_t a
            ("uint8_t", ["uint64_t a"], "{ while (a) { a = a - 1; } return a; }"), ("uint16_t", ["int16_t a"], "{ int32_t vf_h_k = a; vf_h_k++; return vf_h_k + nope; }"),
            ("void", ["HexInsnPktBundle *bundle", "int32_t a"], "{ R1 = a; break; }")]
 REG_GOOD = ("int32_t", ["int32_t a"], "{ int32_t vf_h_k = a; vf_h_k++; return vf_h_k * 2; }")
-REG_CALLERS = ["{ RdV = vf_h_sub(RsV); }", "{ RddV = vf_h_sub(RssV) + vf_h_sub(RtV); }"]
+REG_CALLERS = ["{ RdV = vf_h_sub(RsV); }", "{ RddV = vf_h_sub(RssV) + vf_h_sub(RtV); }", "{ RdV = vf_h_other(RsV); }"]
+REG_OTHER_INSTANCE = -2  # history: ANOTHER Compiler instance of the same process registered vf_h_sub (different body) and vf_h_other before
 
 
 def _registration_history(item):
@@ -201,6 +204,13 @@ def _registration_history(item):
     with contextlib.redirect_stdout(io.StringIO()):
         c = Compiler(ArchEnum.HEXAGON)
     first = None
+    if item == REG_OTHER_INSTANCE:
+        from rzilcompiler.Transformer.RZILTransformer import CodeFormat
+        first = "other-instance"
+        with contextlib.redirect_stdout(io.StringIO()):
+            other = Compiler(ArchEnum.HEXAGON, CodeFormat.EXEC_CLASSES)
+        other.add_sub_routine("vf_h_sub", "int32_t", ["int32_t a"], "{ return a - 7; }")
+        other.add_sub_routine("vf_h_other", "int32_t", ["int32_t a"], "{ return a + 1; }")
     if item >= 0:
         try:
             c.add_sub_routine("vf_h_sub", *REG_BAD[item])
@@ -226,11 +236,11 @@ def footprint(c):
     fp = {
         "ext.preds_written": list(getattr(e, "preds_written", [])),
         "class.preds_written": list(HexagonTransformerExtension.__dict__.get("preds_written", [])),
-        "sub_routines": sorted(Compiler.sub_routines),
+        "sub_routines": sorted(set(Compiler.__dict__.get("sub_routines", {})) | set(c.sub_routines)),
         # the HYBRID_LVAR bit that resolve_hybrid ORs into a registered sub-routine's return type on its first call is whitelisted
         # (idempotent; histories (b) show it does not change any result)
         "sub_routine.types": {n: (str(s.value_type), s.value_type.group.value & ~4, [(str(p.value_type), p.value_type.group.value) for p in s.ops])
-                              for n, s in sorted(Compiler.sub_routines.items())},
+                              for n, s in sorted(c.sub_routines.items())},
         "noped": list(c.noped_insns), "behaviors": len(PreprocessorHexagon.behaviors), "patched_macros": len(PreprocessorHexagon.patched_macros),
     }
     # generic reflection (no attribute names of the implementation are assumed): every instance attribute of the transformer,
@@ -346,11 +356,11 @@ def run(tier):
             nlong_ok += 1
             rep.add(key, "ok")
     # (e) registration histories
-    regs = framework.pmap(_registration_history, [-1] + list(range(len(REG_BAD))), fresh=True)
+    regs = framework.pmap(_registration_history, [-1, REG_OTHER_INSTANCE] + list(range(len(REG_BAD))), fresh=True)
     ref = regs[0]
     nreg_ok = 0
     for item, first, definition, callers in regs[1:]:
-        key = f"register:failed({REG_BAD[item][2]}) then corrected"
+        key = f"register:failed({REG_BAD[item][2]}) then corrected" if item >= 0 else "register:another Compiler instance registered vf_h_sub / vf_h_other before"
         if first == "accepted":
             rep.add(key, "inconclusive", "bad-accepted", "the deliberately broken sub-routine body was accepted")
         elif definition != ref[2] and not (definition[0] == "ok" and ref[2][0] == "ok" and normalise(definition[1]) == normalise(ref[2][1])):
